@@ -156,6 +156,13 @@ def run(repo: Repo, L: Ledger, tier: str):
         why4 = f"no inward Gap-stripping walk for index {[v for v in (lo, hi) if not walks.get(v)]}: a returned result could start or end with a gap row"
     L.check(bool(ok4), "R4", find.short, "leading and trailing gap rows are walked off before slicing", why4, find.loc())
 
+    # every end removal of an overlap result strips the gaps it exposes (pairing rule shared with C18.R4)
+    from .c18 import _r4 as _strip_pairing, mutators
+
+    ovr = repo.cls("OverlapResult")
+    direct, _all = mutators(repo, ovr)
+    _strip_pairing(repo, L, ovr, direct)
+
     # ---- R5
     addm = ba.methods.get("add_missing_scaffolds_from_input")
     if addm is None:
